@@ -134,7 +134,7 @@ fn main() {
         mants.extend([BigInt::from(3), BigInt::from(7), BigInt::from(123456789)]);
     }
     for m in &mants {
-        for s in 0..=60i128 {
+        for s in (0..=60i128).chain(if ndigits(m) <= 2 { 61..=135i128 } else { 61..=60i128 }) {
             for sign in [1, -1] {
                 let x = Dec { n: m * sign, s };
                 // |x| <= bound ?
